@@ -5,19 +5,29 @@ import gen
 
 
 def contexts(run, **kw):
-    """The stream of (table, PyCtx) of this run; stops at the deadline."""
+    """The stream of (table, PyCtx) of this run; stops at the deadline.
+
+    Every context is handed out only after the *next* one has been constructed, so that two live
+    contexts (often with the same labels and different tables) always coexist when the older one is
+    queried for the first time."""
     seen = 0
+    pending = None
     for tab in gen.suite(run.rng, run.tier, **kw):
         if not run.time_left():
             run.notes.append('stopped at deadline after %d contexts' % seen)
-            return
+            break
         seen += 1
         n, m, rows = tab
         line = 'ctx %d %d %s' % (n, m, ' '.join(map(str, rows)))
         with guard(run, 'Context(...) of a valid table', [line]):
             pc = PyCtx(tab)
-        run.driver.ask(pc.line)
-        yield tab, pc
+        if pending is not None:
+            run.driver.ask(pending[1].line)
+            yield pending
+        pending = (tab, pc)
+    if pending is not None:
+        run.driver.ask(pending[1].line)
+        yield pending
 
 
 def subsets(run, k, limit_all=6, sample=20):
